@@ -295,14 +295,19 @@ Theorem C16_equal_reflexive : forall e x, ecfg_guard e = true -> has_durp e = fa
 Proof. exact model_reflexive. Qed.
 
 (* ---- the judge is sound with respect to the model ---- *)
-(* whenever the observation is the model's ([agrees]), the guard holds and no known-finding class
-   applies ([in_scope_all]: no DurationValueWithinP, no saturating Duration under DurationValueWithin;
-   pair, Value-stream, one-item-collection and whole-collection cases with distinct ids; not the
-   read-mask cases), the property predicate evaluated on the OBSERVATION holds: symmetric, reflexive,
+(* whenever the observation is the model's ([agrees]), the guard holds and the case is in scope
+   ([in_scope_every], described below), the property predicate evaluated on the OBSERVATION holds: symmetric, reflexive,
    equal to the reference equality with ideal leaves, equal to the real proto.Equal modulo
    change_time, And/Or = fold, delivered iff not ideally equivalent to what the subscriber holds.
    So on in-scope cases a non-zero verdict can only come from the code differing from the model. *)
 Theorem C16_judge_sound : forall c,
+  agrees c = true -> C16_guard c = true -> in_scope_every c = true -> C16_ok c = true.
+Proof. exact judge_sound_every. Qed.
+(* [in_scope_every]: pair (combinator trees included), Value-stream, one-item and whole-collection cases, and the
+   read-mask stream and collection cases (the read-mask filter keeps a value guarded and in scope:
+   MaskCollJudgeProofs.path_filter_tree_ok); every kind but the lossy collection cases KCollL.  The scope: no
+   DurationValueWithinP; int32 nanos in Durations under DurationValueWithin; distinct ids. *)
+Theorem C16_judge_sound_without_masks : forall c,
   agrees c = true -> C16_guard c = true -> in_scope_all c = true -> C16_ok c = true.
 Proof. exact judge_sound_all. Qed.
 
@@ -329,7 +334,7 @@ Example C16_nonvacuous_masked_collection :
   let c := KCollM ["default_double"%string] (EAnd [VFloat 0 (1#2)]) false (Some (1#1)) [("a"%string, m (1#1) "x"%string)]
              [("a"%string, Some (m (1#1) "y"%string)); ("a"%string, Some (m (2#1) "y"%string)); ("a"%string, Some (m (1#2) "y"%string))]
              [("a"%string, None, Some (v (1#1))); ("a"%string, Some (v (1#1)), Some (v (2#1))); ("a"%string, Some (v (2#1)), None)] in
-  (agrees c && C16_guard c && mask_coll_scope c && C16_ok c) = true.
+  (agrees c && C16_guard c && mask_coll_scope c && in_scope_every c && C16_ok c) = true.
 Proof. vm_compute. reflexivity. Qed.
 
 Theorem C16_judge_sound_comb : forall is_or es x y,
@@ -666,6 +671,7 @@ Print Assumptions C16_durp_symmetric_refuted.
 Print Assumptions C16_durp_reflexive_refuted.
 Print Assumptions C16_durp_only_own_kind.
 Print Assumptions C16_judge_sound.
+Print Assumptions C16_judge_sound_without_masks.
 Print Assumptions C16_judge_sound_masked_stream.
 Print Assumptions C16_judge_sound_masked_collection.
 Print Assumptions C16_judge_sound_comb.
